@@ -103,6 +103,8 @@ def als(I_trn, y_trn, Y0, nswp=50, e=1.E-16, info={}, *, I_vld=None, y_vld=None,
         rearrange = np.arange(d)
         info['rearrange'] = rearrange
         print('!!! Note that "allow_swap" is a VERY experimental option')
+    else:
+        info.pop('rearrange', None)
 
     Y = teneva.copy(Y0)
     if r is not None:
